@@ -15,6 +15,16 @@ Proof.
 Qed.
 
 (* counting an edge id in the image of a duplicate-free list *)
+Lemma count_image_zero (g : Z -> option Z) e l :
+  (forall u, In u l -> g u <> Some e) -> Feat.count_occ_o e (map g l) = 0.
+Proof.
+  induction l as [|a t IH]; intros H; [reflexivity|]. cbn [map].
+  assert (Na : g a <> Some e) by (apply H; now left).
+  assert (R : Feat.count_occ_o e (map g t) = 0) by (apply IH; intros u Hu; apply H; now right).
+  destruct (g a) as [x|]; cbn; [|exact R].
+  destruct (x =? e) eqn:Q; [apply Z.eqb_eq in Q; subst; congruence | lia].
+Qed.
+
 Lemma count_image_one (g : Z -> option Z) e u0 l :
   NoDup l -> In u0 l -> (forall u, In u l -> (g u = Some e <-> u = u0)) ->
   Feat.count_occ_o e (map g l) = 1.
@@ -24,19 +34,7 @@ Proof.
   destruct (Z.eq_dec a u0) as [->|Ne].
   - assert (E : g u0 = Some e) by (apply Hg; [now left | reflexivity]). rewrite E. cbn. rewrite Z.eqb_refl.
     assert (Z0 : Feat.count_occ_o e (map g t) = 0).
-    { clear IH. induction t as [|b t IHt]; [reflexivity|]. cbn [map].
-      assert (Nb : g b <> Some e).
-      { intros Eb. apply Hg in Eb; [|right; now left]. subst b. apply Na. now left. }
-      destruct (g b) as [x|] eqn:Gb; cbn.
-      - destruct (x =? e) eqn:Q; [apply Z.eqb_eq in Q; subst; congruence|].
-        rewrite IHt; [reflexivity | | | ].
-        + intros I. apply Na. now right.
-        + inversion Nt; assumption.
-        + intros u Hu. apply Hg. destruct Hu as [->|Hu]; [now left | right; now right].
-      - apply IHt.
-        + intros I. apply Na. now right.
-        + inversion Nt; assumption.
-        + intros u Hu. apply Hg. destruct Hu as [->|Hu]; [now left | right; now right]. }
+    { apply count_image_zero. intros u Hu Eu. apply Hg in Eu; [|now right]. subst u. contradiction. }
     lia.
   - destruct Hin as [->|Hin]; [congruence|].
     assert (Na' : g a <> Some e) by (intros Ea; apply Hg in Ea; [congruence | now left]).
@@ -47,14 +45,22 @@ Proof.
     + exact R.
 Qed.
 
-Lemma count_image_zero (g : Z -> option Z) e l :
-  (forall u, In u l -> g u <> Some e) -> Feat.count_occ_o e (map g l) = 0.
+Lemma keyify_eq1 v u b : v < b -> (keyify2 v u = (v, b) <-> u = b).
 Proof.
-  induction l as [|a t IH]; intros H; [reflexivity|]. cbn [map].
-  assert (Na : g a <> Some e) by (apply H; now left).
-  assert (R : Feat.count_occ_o e (map g t) = 0) by (apply IH; intros u Hu; apply H; now right).
-  destruct (g a) as [x|]; cbn; [|exact R].
-  destruct (x =? e) eqn:Q; [apply Z.eqb_eq in Q; subst; congruence | lia].
+  intros L. unfold keyify2. destruct (v <=? u) eqn:Q; split; intros H.
+  - now inversion H.
+  - now subst.
+  - inversion H. lia.
+  - subst. lia.
+Qed.
+
+Lemma keyify_eq2 a v u : a < v -> (keyify2 v u = (a, v) <-> u = a).
+Proof.
+  intros L. unfold keyify2. destruct (v <=? u) eqn:Q; split; intros H.
+  - inversion H. lia.
+  - subst. lia.
+  - now inversion H.
+  - now subst.
 Qed.
 
 Section BridgeF.
@@ -137,13 +143,13 @@ Section BridgeF.
     - (* boundary_edges = edges with a missing face *)
       intros e He. rewrite nE_eq in He. pose proof (fedge_zth e He) as Hz.
       destruct (Feat.fedge_at fm e) as [u v] eqn:Fe.
-      rewrite (B1 e u v Hz). destruct (Te2f e u v Hz) as (a & b & Ea & Eb).
+      rewrite (proj1 (B1 e u v Hz)). destruct (Te2f e u v Hz) as (a & b & Ea & Eb).
       rewrite TCe2f in Ea. inversion Ea; subst a b.
       unfold Feat.e_on_border. rewrite Eb. unfold sp_edge_on_border.
       assert (I : In (keyify2 u v) edges).
       { pose proof (Hk _ (zth_In _ _ _ Hz)) as L. cbn in L. unfold keyify2. destruct (u <=? v) eqn:Q; [|lia].
         eapply zth_In; eauto. }
-      destruct (edge_id_found faces m Hex Hnd Hk u v I) as (e' & -> & _).
+      destruct (edge_id_found m Hnd Hk u v I) as (e' & -> & _).
       unfold sp_direct_face. destruct (sp_he faces u v), (sp_he faces v u); cbn; split; congruence.
     - intros e He. rewrite nE_eq. apply In_zrange. eapply Permutation_in; [exact P|]. apply in_or_app. now left.
     - intros l e El He. rewrite nE_eq. now apply (Thard l).
@@ -162,20 +168,16 @@ Section BridgeF.
       { intros u Hu. split.
         - intros H. apply sp_edge_id_zth in H. congruence.
         - intros K. assert (I : In (keyify2 v u) edges) by (rewrite K; eapply zth_In; eauto).
-          destruct (edge_id_found faces m Hex Hnd Hk v u I) as (e' & E' & Z'). rewrite E'. f_equal.
+          destruct (edge_id_found m Hnd Hk v u I) as (e' & E' & Z'). rewrite E'. f_equal.
           rewrite K in Z'. now apply (zth_inj e' e (a, b)). }
       assert (Iab : In (a, b) edges) by (eapply zth_In; eauto).
       destruct (Z.eq_dec a v) as [Ea|Na]; [|destruct (Z.eq_dec b v) as [Eb|Nb]].
       + subst a. rewrite Z.eqb_refl. replace (b =? v) with false by lia.
         apply (count_image_one _ e b); [exact Nr | apply Ir; now left|].
-        intros u Hu. rewrite (G u Hu). unfold keyify2. destruct (v <=? u) eqn:Q; split; intros H; try (inversion H; lia || reflexivity).
-        * subst u. reflexivity.
-        * subst u. lia.
+        intros u Hu. rewrite (G u Hu). now apply keyify_eq1.
       + subst b. rewrite Z.eqb_refl. replace (a =? v) with false by lia.
         apply (count_image_one _ e a); [exact Nr | apply Ir; now right|].
-        intros u Hu. rewrite (G u Hu). unfold keyify2. destruct (v <=? u) eqn:Q; split; intros H; try (inversion H; lia || reflexivity).
-        * subst u. lia.
-        * subst u. reflexivity.
+        intros u Hu. rewrite (G u Hu). now apply keyify_eq2.
       + replace (a =? v) with false by lia. replace (b =? v) with false by lia.
         apply count_image_zero. intros u Hu H. apply (G u Hu) in H. unfold keyify2 in H.
         destruct (v <=? u); inversion H; lia.
